@@ -943,7 +943,8 @@ func genAlgebra(r *rand.Rand) logqIn {
 		case 0:
 			st = stageIn{T: "logfmt"}
 		case 1:
-			st = stageIn{T: []string{"drop", "keep"}[r.Intn(2)], Labels: IntsList{B(pick(r, lqKeys)), B("msg")}}
+			// (app is an attribute of the records: a filter on it behind a drop / keep must see what the stage left)
+			st = stageIn{T: []string{"drop", "keep"}[r.Intn(2)], Labels: IntsList{B(pick(r, append(lqKeys, "app", "app"))), B("msg")}}
 		default:
 			st = genFilterStage(r)
 		}
